@@ -169,7 +169,11 @@ def run_job(job):
                     continue
                 canonical = not trees.option_label(o)
                 oo = dict(o, table_pipes='padded', renderer_form=True) if canonical else o
-                md, rec = trees.to_markdown(blocks, oo)
+                try:
+                    md, rec = trees.to_markdown(blocks, oo, strict=True)
+                except trees.Unwritable:
+                    r.skip('a written line reads as a thematic break (nested empty items)')
+                    continue
                 # a definition whose title sits on the next line is not in the renderer's normal form (it joins them)
                 exact = canonical and not any(getattr(b, 'title_style', None) == 'nextline' for b, _p in trees.walk(blocks))
                 for nw in (False, True):
